@@ -138,6 +138,17 @@ def r_generators(ctx, clauses):
                 else:
                     want = [((i, j), si + sj) for i, si in enumerate(list1) for j, sj in enumerate(l2) if si is not sj and not (sym and i > j)]
                 got = me.attrs.get("list_of_class_constraints")
+                if arity == 2 and sym and isinstance(got, list):
+                    # a symmetric condition may be written for either orientation of a pair: the orientation actually emitted is the expected one
+                    emitted = [c.attrs.get("args") for c in got if isinstance(c, SymObj)]
+                    flipped = []
+                    for (i, j), a in want:
+                        mirror = list1[j] + list1[i]
+                        if not any(_same(g0, a) for g0 in emitted) and any(_same(g0, mirror) for g0 in emitted):
+                            flipped.append(((j, i), mirror))
+                        else:
+                            flipped.append(((i, j), a))
+                    want = flipped
                 if "emit" in clauses:
                     msg = None
                     if not isinstance(got, list) or any(not isinstance(c, SymObj) or c.kind != "Constraint" for c in got):
